@@ -328,6 +328,27 @@ pub fn observe_gen(image: &[u8], user: Option<&[u8]>) -> (String, Option<Result<
     (obs_of(&r), r)
 }
 
+/// "different strings receive different ids" after a reload followed by `read_user_lexicon`
+/// (which interns the user entries' expansions): every interning map of the model is injective.
+fn injective_after_reload(image: &[u8], user: &[u8]) -> &'static str {
+    let r = guarded(|| {
+        let mut m = Model::read_model(image).ok()?;
+        m.read_user_lexicon(user).ok()?;
+        let maps = vibrato::trainer::verif::model_feature_maps(&m);
+        Some(maps.iter().all(|mp| {
+            let mut ids: Vec<u32> = mp.iter().map(|x| x.1).collect();
+            ids.sort_unstable();
+            ids.windows(2).all(|w| w[0] != w[1])
+        }))
+    })
+    .flatten();
+    match r {
+        Some(true) => "1",
+        Some(false) => "0",
+        None => "na",
+    }
+}
+
 fn all_costs_zero(g: &Gen) -> bool {
     let col = |line: &str, sep: char, idx: usize| -> bool {
         line.split(sep).nth(idx).map_or(true, |c| c == "0")
@@ -499,7 +520,7 @@ pub fn run(mode: &str, seed: u64, n: usize, out: &mut dyn Write) {
             (Some(Err(())), Some(Err(()))) => true,
             _ => false,
         };
-        writeln!(out, "train {id}.b GEN {} {} IMPL {} ## {}", hex(&image), hex(user), obs_b, flags(&s, rt_b, &g3)).unwrap();
+        writeln!(out, "train {id}.b GEN {} {} IMPL {} ## {} INJ={}", hex(&image), hex(user), obs_b, flags(&s, rt_b, &g3), injective_after_reload(&image, user)).unwrap();
         // synthetic raw models: the trained image with transformed weights (sign patterns, one dominating
         // weight, cancellation, very small / very large magnitudes)
         if let Some(Ok(mut ms)) = guarded(|| Model::read_model(&image[..]).map_err(|_| ())) {
